@@ -9,4 +9,5 @@ pub mod conn;
 pub mod exec;
 pub mod merge;
 pub mod misc;
+pub mod retry;
 pub mod tablets;
